@@ -101,3 +101,20 @@ func (v *VerifLM) FilterContains(n int, userKey string) bool {
 
 // VerifReadTs exposes a transaction's snapshot timestamp (diagnostics only, never an oracle input).
 func (t *Txn) VerifReadTs() uint64 { return t.readTs }
+
+// VerifInMemtable reports whether the active memtable holds any version of key (no locks:
+// called by the harness between API calls; used to classify covered cases, never as an oracle).
+func (db *DB) VerifInMemtable(key string) bool {
+	k := types.KeyWithTs(key, ^uint64(0))
+	e, ok := db.memtable.skiplist.LowerBound(k)
+	return ok && types.IsSameKey(k, e.Key)
+}
+
+// VerifShape returns the number of queued immutable memtables and of table handles per level.
+func (db *DB) VerifShape() (imm int, tables []int) {
+	imm = db.immutables.Len()
+	for _, l := range db.manager.levels {
+		tables = append(tables, l.Len())
+	}
+	return
+}
